@@ -62,6 +62,21 @@ def _sdec(tok, bits=64):
 
 
 class McServer:
+    # `down`: None, or how the server fails for the network (vlib/fakenet.py). A server process that is gone (refused, reset,
+    # unreachable) has lost its connections: `epoch` counts such outages, and a connection made in an earlier epoch is dead
+    # even when the server is back (what a restart does to the connections a client still holds)
+    epoch = 0
+
+    @property
+    def down(self):
+        return self.__dict__.get("_down")
+
+    @down.setter
+    def down(self, v):
+        if v in ("refused", "reset", "oserror") and self.__dict__.get("_down") != v:
+            self.epoch += 1
+        self.__dict__["_down"] = v
+
     def __init__(self, clock=None, name="mc", version=b"1.6.21", shutdown_enabled=False):
         self.clock = clock or Clock()
         self.name = name
